@@ -158,7 +158,13 @@ pub enum Step {
     /// form: 0 iter_mut, 1 values_mut, 2 children_mut(k)
     IterMutWrite { m: u8, form: u8, k: Raw, order: u64, v0: u64 },
     Entry { m: u8, k: Raw, acts: Vec<EAct>, panic_at: Option<u32> },
-    CloneInto { m: u8, dst: u8 },
+    CloneInto {
+        m: u8,
+        dst: u8,
+        /// use `dst.clone_from(&src)` instead of `dst = src.clone()`
+        #[serde(default)]
+        clone_from: bool,
+    },
     /// how: 0 into_iter().collect(), 1 iter-cloned collect in permuted order, 2 into_children(zero), 3 into_keys+into_values zip
     Rebuild { m: u8, how: u8, order: u64 },
     Serde { m: u8, k0: u64, k1: u64 },
@@ -172,7 +178,12 @@ pub enum Step {
     SRemoveChildren { s: u8, k: Raw },
     SRetain { s: u8, salt: u64, keep: u8, panic_at: Option<u32> },
     SClear { s: u8 },
-    SCloneInto { s: u8, dst: u8 },
+    SCloneInto {
+        s: u8,
+        dst: u8,
+        #[serde(default)]
+        clone_from: bool,
+    },
     SRebuild { s: u8, how: u8, order: u64 },
     SSerde { s: u8, k0: u64, k1: u64 },
     SMutSession { s: u8, acts: Vec<MAct> },
@@ -593,6 +604,21 @@ pub fn generate(verif_seed: u64, params: &GenParams, run: u64) -> Script {
     let weights = family_weights(&family);
     let mut g = Gen { rng: &mut rng, cfg: cfg.clone(), width, next_v: 100, hot, uar: params.property == "C20" };
     let mut steps = Vec::with_capacity(nsteps);
+    // chain universes: often start from the fully populated chain (a node at every length of the
+    // shallow and the deep end of one path), inserted in a random order
+    let is_chain = !g.cfg.full_u8 && g.cfg.universe.len() >= 9 && (0..=8u8.min(width)).all(|l| g.cfg.universe.iter().any(|r| r.len == l)) && g.cfg.universe.iter().filter(|r| r.len == 0).count() == 1 && g.cfg.universe.iter().all(|r| r.len <= 8 || r.len >= width.saturating_sub(8));
+    if is_chain && g.rng.chance(2, 3) {
+        let mut keys = g.cfg.universe.clone();
+        g.rng.shuffle(&mut keys);
+        let m = g.m();
+        for k in keys {
+            if g.rng.chance(5, 6) {
+                let k = g.host(k);
+                let v = g.v();
+                steps.push(Step::Insert { m, k, v });
+            }
+        }
+    }
     for _ in 0..nsteps {
         steps.push(gen_step(&mut g, &weights));
     }
@@ -621,7 +647,7 @@ fn gen_step(g: &mut Gen, weights: &[u32; 27]) -> Step {
         7 => Step::LpmMutWrite { m: g.m(), k: g.q(), v: g.v() },
         8 => Step::IterMutWrite { m: g.m(), form: g.rng.below(3) as u8, k: g.q(), order: g.rng.next(), v0: g.vblock() },
         9 => Step::Entry { m: g.m(), k: g.k(), acts: g.entry_acts(), panic_at: g.panic_at(1) },
-        10 => Step::CloneInto { m: g.m(), dst: g.m() },
+        10 => Step::CloneInto { m: g.m(), dst: g.m(), clone_from: g.rng.chance(1, 2) },
         11 => Step::Rebuild { m: g.m(), how: g.rng.below(4) as u8, order: g.rng.next() },
         12 => Step::Serde { m: g.m(), k0: g.rng.next(), k1: g.rng.next() },
         13 => Step::Swap { a: g.m(), b: g.m() },
@@ -652,7 +678,7 @@ fn gen_step(g: &mut Gen, weights: &[u32; 27]) -> Step {
         19 => Step::SRemoveChildren { s: g.s(), k: g.q() },
         20 => Step::SRetain { s: g.s(), salt: g.rng.next(), keep: g.rng.range(0, 8) as u8, panic_at: g.panic_at(12) },
         21 => Step::SClear { s: g.s() },
-        22 => Step::SCloneInto { s: g.s(), dst: g.s() },
+        22 => Step::SCloneInto { s: g.s(), dst: g.s(), clone_from: g.rng.chance(1, 2) },
         23 => Step::SRebuild { s: g.s(), how: g.rng.below(2) as u8, order: g.rng.next() },
         24 => Step::SSerde { s: g.s(), k0: g.rng.next(), k1: g.rng.next() },
         _ => {
